@@ -27,6 +27,7 @@ func envInt(name string, def int) int {
 type Config struct {
 	Mode       string    `json:"mode"`
 	Out        string    `json:"out"`
+	In         string    `json:"in,omitempty"`
 	Data       string    `json:"data"`
 	Seed       int64     `json:"seed"`
 	Programs   int       `json:"programs"`
@@ -62,6 +63,8 @@ func main() {
 		runFault(cfg)
 	case "replay":
 		runReplay(cfg)
+	case "life":
+		runLife(cfg)
 	case "stores":
 		runStores(cfg)
 	case "privacy":
